@@ -401,7 +401,19 @@ func c16(c *Ctx) {
 		if i%10 == 0 {
 			ch = nil // 0x1212 before any chunk
 		}
-		if i%25 == 7 {
+		over := false
+		if i%40 == 14 || i == 4 {
+			// MORE ranges than one 0x9212 body of <= 1023 bytes can hold (8 bytes per range): 127..255 single-byte
+			// gaps - the property's "any count up to 255 gaps ... driven over a socket"
+			g := []int{127, 128, 200, 255}[rng.Intn(4)]
+			size = uint64(2 * g)
+			ch = nil
+			for x := 0; x < g; x++ {
+				ch = append(ch, seg{uint32(2*x + 1), 1})
+			}
+			ch = shuffle(ch)
+			over = true
+		} else if i%25 == 7 {
 			// many single-byte gaps: every second byte of a file received as its own chunk (as many gaps as one
 			// 0x9212 body of <= 1023 bytes can list: 8 bytes per range after the name and three fixed bytes)
 			g := 20 + rng.Intn(100)
@@ -475,6 +487,26 @@ func c16(c *Ctx) {
 		frames, ok := SplitFrames(res.Wire)
 		bad := func(what, obs, reqd string) {
 			c.Violate(Violation{Signature: "C16/socket/" + what, What: "completion response over a real connection", Input: req, Observed: obs, Required: reqd})
+		}
+		undecodable := ""
+		if ok {
+			for _, fr := range frames { // every reply must be a frame the library's own decoder (a terminal) accepts
+				if a := FrameDecode(fr); !strings.HasPrefix(a, "ok ") {
+					undecodable = a
+				}
+			}
+		}
+		if undecodable != "" && !over {
+			bad("reply-undecodable", undecodable, "every reply frame decodes (JTMessage.Decode)")
+			continue
+		}
+		if over && (res.Panic != "" || !ok || len(frames) != 3 || undecodable != "") {
+			// the completion response for more than 126 ranges does not fit a frame: Header.Encode writes the
+			// unmasked body length into the property word (it spills into the flag bits) and the reply is undecodable
+			c.Violate(Violation{Signature: "C16/socket/reply-over-1023", What: "completion response for more ranges than one frame can carry",
+				Input: req, Observed: fmt.Sprintf("panic=%q frames=%d split-ok=%v decode of the reply: %s (wire bytes=%d)", res.Panic, len(frames), ok, undecodable, len(res.Wire)),
+				Required: fmt.Sprintf("a decodable 0x9212 (or several) listing the %d missing ranges", len(want))})
+			continue
 		}
 		if res.Panic != "" || !ok || len(frames) != 3 {
 			bad("replies", fmt.Sprintf("panic=%q frames=%d wire=%s", res.Panic, len(frames), Hx(res.Wire)), "three reply frames (0x8001, 0x9212, 0x9212)")
